@@ -520,6 +520,21 @@ class _Skip(Exception):
 def run_case(case):
     case = _norm_case(case)
     root = os.path.abspath(os.environ.get("FRAME_REPO", "/repo")) + os.sep
+    import shutil
+    import tempfile
+    scratch = tempfile.mkdtemp(prefix="frame-verif-", dir=os.environ.get("VERIF_SCRATCH") or ("/dev/shm" if os.path.isdir("/dev/shm") else None))
+    os.makedirs(os.path.join(scratch, "fs"))
+    fs = SimFS(mirror=os.path.join(scratch, "fs"))   # real directory underneath, faults injected at open()
+    os.chdir(fs.mirror)
+    _U.open = fs.open  # the seam: frame.utils.utils resolves `open` through its module globals
+    try:
+        return _run_case_body(case, fs, root)
+    finally:
+        os.chdir("/")
+        shutil.rmtree(scratch, ignore_errors=True)
+
+
+def _run_case_body(case, fs, root):
     viol = []
     hist = []
     probes = {}
@@ -531,8 +546,6 @@ def run_case(case):
     def probe(name, n=1):
         probes[name] = probes.get(name, 0) + n
 
-    fs = SimFS()
-    _U.open = fs.open  # the seam: frame.utils.utils resolves `open` through its module globals
     desc = case["alloc"]
     family = desc["family"]
     tree = designs.alloc_tree(desc)
